@@ -180,6 +180,19 @@ def c14():
                 if B < A and (A & B) and (st == "all" or len(A) - len(B) == 1):
                     want_a.add((e, f))
             check(set(dag.nodes) == set(H.edges) and set(dag.edges) == want_a, "encapsulation DAG (%s)" % st, label, (sorted(dag.edges, key=repr), sorted(want_a, key=repr)))
+            if st == "all":
+                all_arcs = set(want_a)
+            else:
+                imm_arcs = set(want_a)
+        # "empirical": a relaxation of "immediate" that links a hyperedge only to its largest existing subsets (and, in the filter, a subset only to
+        # its smallest existing supersets).  Order-independent consequences of that definition: a sub-relation of "all", containing "immediate",
+        # in which all kept subsets of one hyperedge have the same size and all kept supersets of one hyperedge have the same size
+        dag = xgi.to_encapsulation_dag(H, subset_types="empirical")
+        emp = set(dag.edges)
+        sz = {e: len(H._edge[e]) for e in H._edge}
+        check(set(dag.nodes) == set(H.edges) and emp <= all_arcs and imm_arcs <= emp
+              and all(len({sz[b] for a2, b in emp if a2 == a}) <= 1 for a in sz) and all(len({sz[a] for a, b2 in emp if b2 == b}) <= 1 for b in sz),
+              "encapsulation DAG (empirical) links each hyperedge to subsets of one size only, within `all`, including `immediate`", label, sorted(emp, key=repr))
     D = xgi.DiHypergraph([([1, 2], [3]), ([3], [4, 1]), ([5], [])])
     BG, nd, ed = xgi.to_bipartite_graph(D, index=True)
     arcs = set()
@@ -495,6 +508,17 @@ def c19():
         U = H << K
         check(set(U.nodes) == set(nodes) | {"x", "y", 0, 1} and sorted(map(sorted_repr, (set(m) for m in U._edge.values()))) == sorted(map(sorted_repr, list(E.values()) + [{"x", "y"}, {0, 1, "x"}])),
               "<< is the disjoint union of edges over the union of nodes", label)
+        # right operand with an attributed isolated node, an explicit edge id that collides with the left operand's, and attributes on both sides
+        K2 = xgi.Hypergraph()
+        K2.add_node("lonely", colour="blue")
+        K2.add_nodes_from([(n, {"side": "right"}) for n in nodes[:1]])
+        K2.add_edge(["p", "q"], idx=(edges[0] if edges else 0), w=7)
+        U2 = H << K2
+        check(set(U2.nodes) == set(nodes) | {"lonely", "p", "q"} and U2.num_edges == len(edges) + 1
+              and sorted(map(sorted_repr, (set(m) for m in U2._edge.values()))) == sorted(map(sorted_repr, list(E.values()) + [{"p", "q"}]))
+              and U2._node_attr["lonely"].get("colour") == "blue" and all(U2._node_attr[n].get("side") == "right" for n in nodes[:1]),
+              "<< keeps the isolated nodes and node attributes of the right operand and gives colliding edge ids fresh ones", label,
+              (sorted(map(repr, U2.nodes)), list(U2._edge.items())[-2:]))
         if edges:
             mo = max(len(m) for m in E.values()) - 1
             for o in range(0, mo + 1):
@@ -513,6 +537,13 @@ def c19():
         pos = {n: i for i, n in enumerate(nodes)}
         check(all(set(R._edge[j]) == {pos[n] for n in E[e]} for j, e in enumerate(edges)) and all(R._node_attr[i]["old"] == n for n, i in pos.items())
               and all(R._edge_attr[j]["old"] == e for j, e in enumerate(edges)), "integer relabelling is an isomorphism recording the old labels", label)
+        # ... also when the nodes / edges already carry an attribute of that name (relabelling twice, cleanup after a relabelling)
+        H2 = H.copy()
+        H2.set_node_attributes({n: "stale" for n in nodes}, "old")
+        H2.set_edge_attributes({e: "stale" for e in edges}, "old")
+        R2 = xgi.convert_labels_to_integers(H2, "old")
+        check(all(R2._node_attr[i]["old"] == n for n, i in pos.items()) and all(R2._edge_attr[j]["old"] == e for j, e in enumerate(edges)),
+              "integer relabelling records the labels of the network it is given, whatever attributes are present", label, [dict(R2._node_attr[i]) for i in range(min(2, len(nodes)))])
         # largest component
         if nodes:
             comps = [set(c) for c in xgi.connected_components(H)]
@@ -987,7 +1018,158 @@ def c16():
     check(H.num_nodes == 7, "star_clique node count", "star_clique")
     return "index decodings exhaustively for n <= %d, m <= 5 (comb), n <= 5, m <= 3 (prod), 4 block shapes; generators on a fixed parameter grid x %d seeds" % (NB, len(list(seeds)))
 
-PROPS = {"C15": c15, "C16": c16, "C12": c12, "C13": c13, "C14": c14, "C09": c09, "C10": c10, "C11": c11, "C19": c19}
+
+# ------------------------------------------------------------------ C05: duplicate merging against a transcription of its documentation
+def c05():
+    """merge_duplicate_edges is verified at invariant level only (its value computation is abstracted, DESIGN 11.4); here its documented
+    result - rename rules, merge rules, multiplicity - is compared with a direct transcription on hypergraphs whose duplicate ids were
+    inserted in every order."""
+    import copy as _copy
+    groups_pool = [
+        [({1, 2}, [7, 3, 5]), ({3, 4, 5}, [2, 9]), ({1}, [4])],
+        [({"a", "b"}, [1, 0]), ({"b"}, [6, 8, 2])],
+        [({1, 2, 3}, [0]), ({2, 3}, [1])],
+        [({1, 2}, [10, 4]), (set(), [3, 1])],
+    ]
+    attr_of = lambda i: [{"color": "blue"}, {"color": "red", "weight": 2}, {"color": "blue", "name": "t"}, {}][i % 4]
+    for gi, groups in enumerate(groups_pool):
+        ids = [i for _, g in groups for i in g]
+        for perm in itertools.islice(itertools.permutations(ids), 0, 24 if not THOROUGH else 720):
+            H = xgi.Hypergraph()
+            H.add_node("iso", k=1)
+            mem = {i: m for m, g in groups for i in g}
+            for i in perm:
+                H.add_edge(mem[i], idx=i, **attr_of(i))
+            label = "dup-groups %d, insertion order %s" % (gi, list(perm))
+            for rename, rule, mult in itertools.product(("first", "tuple", "new"), ("first", "union", "intersection"), (None, "mult")):
+                G = H.copy()
+                before_uid = max(ids) + 1
+                E0 = {e: set(m) for e, m in G._edge.items()}
+                A0 = _copy.deepcopy(dict(G._edge_attr))
+                N0 = _copy.deepcopy(dict(G._node_attr))
+                G.merge_duplicate_edges(rename=rename, merge_rule=rule, multiplicity=mult)
+                want_members, want_attrs, fresh = {}, {}, 0
+                for m, g in groups:
+                    if len(g) == 1:
+                        want_members[g[0]] = set(m)
+                        want_attrs[g[0]] = A0[g[0]]
+                        continue
+                    sg = sorted(g)
+                    if rename == "first":
+                        nid = sg[0]
+                    elif rename == "tuple":
+                        nid = tuple(sg)
+                    else:
+                        nid = ("NEW", fresh)
+                        fresh += 1
+                    if rule == "first":
+                        at = dict(A0[sg[0]])
+                    else:
+                        fields = {f for i in g for f in A0[i]}
+                        sets = {f: {A0[i].get(f) for i in g} for f in fields}
+                        at = sets if rule == "union" else {f: (next(iter(v)) if len(v) == 1 else None) for f, v in sets.items()}
+                    if mult:
+                        at[mult] = len(g)
+                    want_members[nid] = set(m)
+                    want_attrs[nid] = at
+                got = {e: set(m) for e, m in G._edge.items()}
+                if rename == "new":
+                    # fresh ids: not among the old ids, at or above the counter; compare up to their names
+                    newids = [e for e in got if e not in E0]
+                    ok_ids = all(isinstance(e, int) and e >= before_uid for e in newids) and len(newids) == fresh
+                    canon = lambda v: tuple(sorted(map(repr, v))) if isinstance(v, (set, frozenset)) else v
+                    norm = lambda d: sorted(((sorted_repr(v) if isinstance(v, set) else repr(sorted(((f, canon(x)) for f, x in v.items()), key=repr))) for k, v in d.items() if k in newids or (isinstance(k, tuple) and k and k[0] == "NEW")))
+                    ok = ok_ids and {k: v for k, v in got.items() if k not in newids} == {k: v for k, v in want_members.items() if not (isinstance(k, tuple) and k and k[0] == "NEW")} \
+                        and norm(got) == norm(want_members) and norm(dict(G._edge_attr)) == norm(want_attrs)
+                else:
+                    ok = got == want_members and dict(G._edge_attr) == want_attrs
+                check(ok, "merge_duplicate_edges yields the documented ids, members and attributes (%s / %s / %s)" % (rename, rule, mult), label,
+                      (sorted(got.items(), key=repr), sorted(dict(G._edge_attr).items(), key=repr)))
+                check(dict(G._node_attr) == N0 and set(G.nodes) == set(H.nodes) and all(set(G._node[n]) == {e for e, m in got.items() if n in m} for n in G.nodes),
+                      "merge_duplicate_edges leaves nodes and node attributes alone and keeps the incidence two-way", label)
+    return "4 families of duplicate groups x up to %d insertion orders of the explicit ids x 3 rename rules x 3 merge rules x multiplicity on/off" % (24 if not THOROUGH else 720)
+
+
+# ------------------------------------------------------------------ C03: simplicial invariants after short histories of the complex's own mutators
+def _sinv(S):
+    E = {e: frozenset(m) for e, m in S._edge.items()}
+    Nn = {n: set(m) for n, m in S._node.items()}
+    two_way = all((n in Nn and e in Nn[n]) for e, m in E.items() for n in m) and all((e in E and n in E[e]) for n, m in Nn.items() for e in m)
+    recs = set(S._node_attr) == set(Nn) and set(S._edge_attr) == set(E)
+    sets = set(E.values())
+    closed = all(frozenset(c) in sets for m in sets for r in range(2, len(m)) for c in itertools.combinations(sorted(m, key=repr), r))
+    return dict(two_way=two_way and recs, nonempty=all(len(m) > 0 for m in E.values()), dupfree=len(sets) == len(E), closed=closed)
+
+
+def c03():
+    tri, tri2 = [1, 2, 3], [4, 3, 2]
+    bulk = {
+        "lists": lambda: [list(tri), list(tri2)],
+        "lists-reversed-overlap": lambda: [[3, 2, 1], [2, 3, 4]],
+        "with-ids": lambda: [(list(tri), "a"), (list(tri2), "b")],
+        "with-int-ids": lambda: [(list(tri), 1), (list(tri2), 0)],
+        "with-attrs": lambda: [(list(tri), {"w": 1}), (list(tri2), {"w": 2})],
+        "ids-and-attrs": lambda: [(list(tri), 5, {"w": 1}), (list(tri2), 2, {})],
+        "dict": lambda: {"a": list(tri), "b": list(tri2)},
+        "dict-int-ids": lambda: {3: [1, 2, 3, 4], 0: [4, 3, 5]},
+        "dict-tuples": lambda: {"a": (1, 2, 3), "b": (3, 2, 4), "c": (2, 3)},
+        "one-shot-members": lambda: [iter(tri), iter(tri2)],
+        "existing-face-first": lambda: [[2, 3], [1, 2, 3], [3, 2]],
+        "tetra": lambda: [[1, 2, 3, 4], [3, 4, 5]],
+        "with-empty-and-single": lambda: [[], [7], [1, 2]],
+    }
+    starts = {"empty": lambda: xgi.SimplicialComplex(), "triangle": lambda: xgi.SimplicialComplex([[2, 3, 9]]), "edge-2-3": lambda: xgi.SimplicialComplex([[3, 2]])}
+
+    def audit(S, what, label):
+        r = _sinv(S)
+        for k, v in r.items():
+            check(v, "complex stays %s after %s" % ({"two_way": "two-way consistent", "nonempty": "free of empty simplices", "dupfree": "duplicate-free", "closed": "downward closed"}[k], what), label,
+                  sorted((repr(e), sorted(m, key=repr)) for e, m in S._edge.items())[:12])
+        sets = {frozenset(m) for m in S._edge.values()}
+        nodes = sorted(S._node, key=repr)[:6]
+        check(all(S.has_simplex(c) == (frozenset(c) in sets) for r_ in range(1, 4) for c in itertools.combinations(nodes, r_)), "has_simplex answers membership exactly after %s" % what, label)
+
+    for sl, mk in starts.items():
+        for bl, arg in bulk.items():
+            for mo in (None, 1, 2):
+                S = mk()
+                before = set(S._edge)
+                label = "%s + add_simplices_from(%s, max_order=%s)" % (sl, bl, mo)
+                try:
+                    S.add_simplices_from(arg(), max_order=mo)
+                except Exception as e:  # noqa
+                    # which exception a malformed bulk argument raises is not C03's business; the state it leaves is
+                    r = _sinv(S)
+                    check(r["two_way"] and r["nonempty"] and r["dupfree"], "complex consistent after a rejected bulk call", label)
+                    continue
+                audit(S, "a bulk addition", label)
+                if mo is not None:
+                    check(all(len(S._edge[e]) <= mo + 1 for e in set(S._edge) - before), "simplices added under a maximum order never exceed it", label)
+                # second step on top: single additions with explicit ids, removals, node removal, close
+                for step in ("add-idx-small", "add-existing-face", "remove-first", "remove-node", "weighted"):
+                    T = S.copy()
+                    lab2 = label + " ; " + step
+                    try:
+                        if step == "add-idx-small":
+                            T.add_simplex([6, 7, 8], idx=max([e for e in T._edge if isinstance(e, int)], default=-1) + 1)
+                        elif step == "add-existing-face":
+                            T.add_simplex([3, 2], idx="dup")
+                        elif step == "remove-first" and T._edge:
+                            e0 = list(T._edge)[0]
+                            m0 = frozenset(T._edge[e0])
+                            old = {e: frozenset(m) for e, m in T._edge.items()}
+                            T.remove_simplex_id(e0)
+                            check(set(T._edge) == {e for e, m in old.items() if not m0 <= m}, "removing a simplex removes exactly it and the simplices containing it", lab2)
+                        elif step == "remove-node" and T._node:
+                            T.remove_node(sorted(T._node, key=repr)[0])
+                        elif step == "weighted":
+                            T.add_weighted_simplices_from([(5, 2, 3, 0.5), (3, 2, 1.5)])
+                    except Exception:  # noqa
+                        pass
+                    audit(T, step, lab2)
+    return "3 start complexes x 13 bulk inputs (five formats, overlapping / reversed / one-shot / nested members) x max_order in {None,1,2}, each followed by 5 single edits"
+
+PROPS = {"C03": c03, "C05": c05, "C15": c15, "C16": c16, "C12": c12, "C13": c13, "C14": c14, "C09": c09, "C10": c10, "C11": c11, "C19": c19}
 
 
 def main():
